@@ -19,11 +19,11 @@ import (
 )
 
 type c15Case struct {
-	N       int    `json:"modules"`
-	Graph   int64  `json:"graph"` // bit i*N+j = edge i -> j
-	Desc    bool   `json:"descending_import_order"`
-	Variant int    `json:"variant"`
-	Special string `json:"special,omitempty"`
+	N       int               `json:"modules"`
+	Graph   int64             `json:"graph"` // bit i*N+j = edge i -> j
+	Desc    bool              `json:"descending_import_order"`
+	Variant int               `json:"variant"`
+	Special string            `json:"special,omitempty"`
 	Files   map[string]string `json:"files,omitempty"`
 }
 
@@ -455,7 +455,7 @@ func init() {
 	mc.Register(&mc.Check{
 		ID:    "C15",
 		Level: "exploration",
-		Rule: "E1 exhaustive: every directed graph with self-loops on n module files (all 2^(n*n) edge sets; module 0 = main file; edges into 0 import the main file by name) x both import orders; acyclic reachable parts additionally x 6 probe variants (calls only, assignment to an imported name -> 44, read of a non-exported variable -> 42, use of an imported type, selective import then use of an unlisted name -> 42, selective import then call). Every module prints a marker when its body runs and defines a method calling the method of each module it imports, a type and a plain variable. Real files in a scratch directory through LoadFile/Execute. Oracle from the graph alone: reachable cycle => error 63; otherwise the exact load order (each module once, after everything it imports, main last), the exact call traces and the probe outcome. Plus the same-type-name family (every subset of >= 2 of {main, module 1, module 2} defining a type of one name whose method uses a helper of its own module, importers taking only the factory method, both import orders, the objects used in every order, twice) and 17 fixed scenarios (among them module files made of import statements only - chain, two imports, cycles, missing module behind - and a loaded module's own method / type names staying read-only for its own methods) (nested directories, missing module 60, library, selective library import, missing library 64, read-only library name, diamond). Distinct by construction; non-trivial = at least one edge.",
+		Rule:  "E1 exhaustive: every directed graph with self-loops on n module files (all 2^(n*n) edge sets; module 0 = main file; edges into 0 import the main file by name) x both import orders; acyclic reachable parts additionally x 6 probe variants (calls only, assignment to an imported name -> 44, read of a non-exported variable -> 42, use of an imported type, selective import then use of an unlisted name -> 42, selective import then call). Every module prints a marker when its body runs and defines a method calling the method of each module it imports, a type and a plain variable. Real files in a scratch directory through LoadFile/Execute. Oracle from the graph alone: reachable cycle => error 63; otherwise the exact load order (each module once, after everything it imports, main last), the exact call traces and the probe outcome. Plus the same-type-name family (every subset of >= 2 of {main, module 1, module 2} defining a type of one name whose method uses a helper of its own module, importers taking only the factory method, both import orders, the objects used in every order, twice) and 17 fixed scenarios (among them module files made of import statements only - chain, two imports, cycles, missing module behind - and a loaded module's own method / type names staying read-only for its own methods) (nested directories, missing module 60, library, selective library import, missing library 64, read-only library name, diamond). Distinct by construction; non-trivial = at least one edge.",
 		Assumptions: []string{
 			"importing the same module twice from one file is not generated (statement does not say whether the second import is an error)",
 			"module graphs above n files are not covered",
